@@ -38,7 +38,7 @@ def tlc(chk, name, consts, spec, invs, timeout, workers=None, record=True):
     return r
 
 
-def judge(chk, consts, cases, res):
+def judge(chk, consts, cases, res, profile=None):
     cmap = {c["id"]: c for c in cases}
     seen = set()
     for d in res.get("divergences", []):
@@ -55,7 +55,7 @@ def judge(chk, consts, cases, res):
             continue
         chk.violation("%s at crash point %s after history %s\n%s\n%s" % (
             d["kind"], d["point"], json.dumps(c.get("ops")), d.get("detail", ""), "\n".join((d.get("diff") or [])[:10])),
-            {"property": PROP, "checker": "crash", "profile": ec.profile_for(consts), "case": c, "divergence": d})
+            {"property": PROP, "checker": "crash", "profile": profile or ec.profile_for(consts), "case": c, "divergence": d})
 
 
 def run(tier):
@@ -77,7 +77,10 @@ def run(tier):
                             ("seeded", dict(seeded, MaxOps=2), 40 if quick else 800),
                             # crash points INSIDE an index drop, a compression and an import commit (after a snapshot or not)
                             ("mid_base", dict(ec.SEEDED_BASE, MaxOps=2 if quick else 3, MaxRej=0), 40 if quick else 1500),
-                            ("mid_import", dict(ec.IMPORT, MaxOps=2 if quick else 3, MaxRej=0), 30 if quick else 1500)):
+                            ("mid_import", dict(ec.IMPORT, MaxOps=2 if quick else 3, MaxRej=0), 30 if quick else 1500),
+                            # a refused call that left a record in the log (duplicate VCREATE), followed by further writes
+                            ("rej_then_write", dict(ec.BASE, Ids="<- c_Empty", Cfgs="<- c_CfgsB", Maints="<- c_Empty", ALs="<- c_Empty", Targets="<- c_Empty",
+                                                   MaxOps=4, MaxRej=1, MaxFile=5), 40 if quick else 1500)):
         r = tlc(chk, "MC_Crash_corpus_" + name, consts, "SpecCorpusC", [], 1800, workers=4, record=False)
         chk.cov["tlc_runs"].append({"config": "MC_Crash_corpus_" + name, "distinct_states": r.distinct, "corpus_records": len(r.corpus), "wall_s": round(r.wall, 1)})
         # the model may place a flush anywhere; the harness does not force flushes, so per history keep the
@@ -97,6 +100,12 @@ def run(tier):
                 if pre:
                     x["mid"] = pre["between"] + x["between"] + [pre["early"], pre["snap_renamed"], pre["snap_done"]]
         recs = list(best.values())
+        if name == "rej_then_write":
+            def rtw(ops):
+                errs = [i for i, o in enumerate(ops) if o.get("res") == "err"]
+                later = [o for o in ops[errs[0] + 1:] if o.get("res") == "ok"] if errs else []
+                return len(later) >= 2 and ops[errs[0]].get("op") == "VCreate" and later[0].get("op") == "KVSet"
+            recs = [x for x in recs if rtw(x["ops"])]
         if name.startswith("mid_"):
             recs = [x for x in recs if x["ops"][-1].get("op") in MID_OPS and x.get("mid")]
         # prefer states with something at stake: a non-empty log or a snapshot-worthy state
@@ -112,11 +121,14 @@ def run(tier):
     total_imgs = 0
     points = {}
     for consts, cases in plans:
-        res = vlib.run_sharded(binary, "crash", ec.profile_for(consts, variant=vlib.seed() % 3), cases,
+        # records larger than a VCREATE frame where the plan is about offsets of the repair (vector dimension 96)
+        dim = 96 if cases and cases[0]["id"].startswith("r") else 3
+        prof = ec.profile_for(consts, variant=vlib.seed() % 3, dim=dim)
+        res = vlib.run_sharded(binary, "crash", prof, cases,
                                extra_args=[] if quick else ["-torn-all"])
         for e in res.get("errors", []):
             chk.infra.append("crash replay error: " + e)
-        judge(chk, consts, cases, res)
+        judge(chk, consts, cases, res, prof)
         total_imgs += res.get("images", 0)
         for k, v in (res.get("point_counts") or {}).items():
             points[k] = points.get(k, 0) + v
